@@ -44,6 +44,7 @@ type Contract struct {
 	NoSafety bool
 	Native   bool      // lemma over strings and integers only: queries use the solvers' native string theory
 	Serves   []string  // properties that claim this function's base clauses
+	Steps    []*Clause // loop N step: per-iteration obligations (iterold = head of the iteration)
 	Sites    []*Clause // call-site assertions: Label=callee key pattern
 	Params   []string  // explicit formal names (for interface methods / externs)
 	Pure     bool
@@ -430,6 +431,22 @@ func (ct *Contract) addClause(kw, rest, file string, line int) error {
 			cl.Text, cl.Expr = body, e
 			cl.Ord = len(ct.Invs)
 			ct.Invs = append(ct.Invs, cl)
+		case "step":
+			// loop N step E: what one iteration does, relating the state at the back edge
+			// to the state at the head of the same iteration (iterold). Checked at every
+			// back edge; not an invariant (nothing is assumed from it).
+			cl.Kind = "step"
+			if m := labelRe.FindStringSubmatch(body); m != nil {
+				cl.Label = m[1]
+				body = body[len(m[0]):]
+			}
+			e, err := parseSpecExpr(body)
+			if err != nil {
+				return err
+			}
+			cl.Text, cl.Expr = body, e
+			cl.Ord = len(ct.Steps)
+			ct.Steps = append(ct.Steps, cl)
 		case "modifies":
 			cl.Kind = "lmodifies"
 			es, err := parseDesignators(body)
